@@ -26,7 +26,8 @@ EPOCH_RD = 719163
 
 META = {
     "property": "C02",
-    "proof_modules": ["PyodaProofs.C02", "PyodaProofs.GenAgreeC01"],
+    "proof_modules": ["PyodaProofs.C02", "PyodaProofs.GenAgreeC01",
+                      "PyodaProofs.GenAgreeC01Heb", "PyodaProofs.GenAgreeC01Cache", "PyodaProofs.GenAgreeC01Tab"],
     "drivers": ["drv_calendar"],
     "theorems": [
         "Pyoda.C02.gregorian_leap_matches", "Pyoda.C02.gregorian_leap_matches_python", "Pyoda.C02.gregorian_matches_reference",
@@ -67,6 +68,39 @@ META = {
         "Pyoda.GenAgree.C01.gen_Calc_getYear_agree", "Pyoda.GenAgree.C01.gen_Calc_getYearMonthDay_eq",
         "Pyoda.GenAgree.C01.gen_Calc_ymdOfDays_agree", "Pyoda.GenAgree.C01.gen_Calc_daysOfYmdRaw_eq",
         "Pyoda.GenAgree.C01.gen_Calc_validate_eq", "Pyoda.GenAgree.C01.gen_Calc_dayOfYear_eq",
+        "Pyoda.GenAgree.C01Cache.gen_Entry_getValidator_eq", "Pyoda.GenAgree.C01Cache.gen_Entry_getCacheIndex_eq",
+        "Pyoda.GenAgree.C01Cache.gen_Entry_new_eq", "Pyoda.GenAgree.C01Cache.gen_Entry_invalid_eq",
+        "Pyoda.GenAgree.C01Cache.gen_Entry_isValidForYear_eq",
+        "Pyoda.GenAgree.C01Cache.gen_Entry_startOfYearDays_eq",
+        "Pyoda.GenAgree.C01Cache.gen_Calc_getStartOfYearInDays_eq",
+        "Pyoda.GenAgree.C01Cache.gen_Heb_computeCacheEntry_eq",
+        "Pyoda.GenAgree.C01Cache.gen_Heb_getOrPopulateCache_eq", "Pyoda.GenAgree.C01Cache.gen_yearCache_transparent",
+        "Pyoda.GenAgree.C01Cache.gen_hebrewCache_transparent", "Pyoda.GenAgree.C01Heb.gen_Heb_isLeap_eq",
+        "Pyoda.GenAgree.C01Heb.gen_Heb_elapsedNoCache_eq", "Pyoda.GenAgree.C01Heb.gen_Heb_elapsedDays_eq",
+        "Pyoda.GenAgree.C01Heb.gen_Heb_isHeshvanLong_eq", "Pyoda.GenAgree.C01Heb.gen_Heb_isKislevShort_eq",
+        "Pyoda.GenAgree.C01Heb.gen_Heb_daysInMonth_eq", "Pyoda.GenAgree.C01Heb.gen_Heb_daysInYear_eq",
+        "Pyoda.GenAgree.C01Heb.gen_Heb_toMonth_eq", "Pyoda.GenAgree.C01Heb.gen_Heb_toMonth_rejects",
+        "Pyoda.GenAgree.C01Heb.gen_Heb_split_eq", "Pyoda.GenAgree.C01Heb.gen_Heb_civilToScriptural_eq",
+        "Pyoda.GenAgree.C01Heb.gen_Heb_scripturalToCivil_eq",
+        "Pyoda.GenAgree.C01Heb.gen_HebCalc_calendarToCivilMonth_eq",
+        "Pyoda.GenAgree.C01Heb.gen_HebCalc_calendarToScripturalMonth_eq",
+        "Pyoda.GenAgree.C01Heb.gen_HebCalc_civilToCalendarMonth_eq",
+        "Pyoda.GenAgree.C01Heb.gen_HebCalc_scripturalToCalendarMonth_eq",
+        "Pyoda.GenAgree.C01Heb.gen_HebCalc_isLeap_eq", "Pyoda.GenAgree.C01Heb.gen_HebCalc_monthsInYear_eq",
+        "Pyoda.GenAgree.C01Heb.gen_HebCalc_daysInYear_eq", "Pyoda.GenAgree.C01Heb.gen_HebCalc_startOfYear_eq",
+        "Pyoda.GenAgree.C01Heb.gen_HebCalc_daysInMonth_eq", "Pyoda.GenAgree.C01Heb.gen_HebCalc_toMonth_eq",
+        "Pyoda.GenAgree.C01Heb.gen_HebCalc_split_eq", "Pyoda.GenAgree.C01Tab.gen_Calc_minYear_eq",
+        "Pyoda.GenAgree.C01Tab.gen_Calc_maxYear_eq", "Pyoda.GenAgree.C01Tab.gen_Badi_daysInAyyamiHa_eq",
+        "Pyoda.GenAgree.C01Tab.gen_Badi_nawRuzDayInMarch_eq", "Pyoda.GenAgree.C01Tab.gen_Badi_start_eq",
+        "Pyoda.GenAgree.C01Tab.gen_Badi_len_eq", "Pyoda.GenAgree.C01Tab.gen_Badi_months_eq",
+        "Pyoda.GenAgree.C01Tab.gen_Badi_isLeap_eq", "Pyoda.GenAgree.C01Tab.gen_Badi_toMonth_eq",
+        "Pyoda.GenAgree.C01Tab.gen_Badi_dim_eq", "Pyoda.GenAgree.C01Tab.gen_Badi_dim_rejects",
+        "Pyoda.GenAgree.C01Tab.gen_Badi_isInAyyamiHa_eq", "Pyoda.GenAgree.C01Tab.gen_Badi_daysSinceEpoch_eq",
+        "Pyoda.GenAgree.C01Tab.gen_Badi_validate_eq", "Pyoda.GenAgree.C01Tab.gen_UAQ_len_eq",
+        "Pyoda.GenAgree.C01Tab.gen_UAQ_isLeap_eq", "Pyoda.GenAgree.C01Tab.gen_UAQ_start_eq",
+        "Pyoda.GenAgree.C01Tab.gen_UAQ_dim_eq", "Pyoda.GenAgree.C01Tab.gen_UAQ_toMonth_loop1_eq",
+        "Pyoda.GenAgree.C01Tab.gen_UAQ_toMonth_eq", "Pyoda.GenAgree.C01Tab.gen_UAQ_split_loop1_eq",
+        "Pyoda.GenAgree.C01Tab.gen_UAQ_split_eq", "Pyoda.GenAgree.C01Tab.gen_Pers_leapAstronomical_eq",
     ],
     "trusted_base": [
         "the reference formulas are faithful transcriptions of the published algorithms (Reingold & Dershowitz 3rd ed.; "
@@ -78,6 +112,19 @@ META = {
         "(op ref.agree, every run; Lean compiler trusted) together with the proved refAgree_sound; the two Hebrew theorems "
         "additionally take wfCheck (cal.wf 4 / 5, evaluated likewise). ISO/Gregorian, Julian, Coptic and the 8 Islamic calendars "
         "are proved symbolically and evaluated as well",
+        "translator tie, further groups (tools/py2lean_targets.py C01Heb, C01Cache, C01Tab; PyodaProofs/GenAgreeC01Heb|C01Cache|C01Tab.lean): "
+        "Hebrew (_hebrew_scriptural_calculator.py incl. __elapsed_days_no_cache, month lengths, month starts, day-of-year split through match statements; "
+        "_hebrew_month_converter.py; the non-arithmetic members of _hebrew_year_month_day_calculator.py for both month numberings), with __get_or_populate_cache "
+        "as an abstract callee instantiated by the cache-free packed value; the year-start caches themselves (_YearStartCacheEntry, "
+        "_YearMonthDayCalculator._get_start_of_year_in_days, Hebrew __compute_cache_entry / __get_or_populate_cache) as explicit state-passing functions "
+        "over a dict parameter, proved to be single steps of the C13 cache model so that yearCache_transparent / hebrewCache_transparent apply to the generated code "
+        "(gen_yearCache_transparent, gen_hebrewCache_transparent); Badi, Um Al Qura and the Persian astronomical leap rule with their tables evaluated from the source "
+        "(base64 literals; the three Um Al Qura dicts by running the statements of the class body) and compared entry by entry with the model's tables and recomputed "
+        "year lengths / year starts by kernel evaluation. Trusted in addition: a dict attribute as the function key -> optional value (PyDict; KeyError for a missing key), "
+        "the translator's interpreter for class bodies, match statements over integer literals as if-chains, `x is Enum.MEMBER` for declared enum-valued attributes as equality, "
+        "Badi's ISO LocalDate(year, 3, day)._days_since_epoch and CalendarSystem.iso leap rule as abstract callees (instantiated with the Gregorian model), "
+        "bounds |year| < 10^23 for __elapsed_days_no_cache. Outside: Badi._get_year_month_day_from_year_and_day_of_year (float division), Persian year-start list filled in __init__, "
+        "Hebrew/Badi _add_months/_months_between/_set_year (C09)",
         "translator tools/py2lean.py (second tie, besides the correspondence suites): the leap rules, year starts, year and month "
         "lengths, month starts and day-of-year splits of the Gregorian, Julian, Coptic/fixed-month, tabular Islamic and Persian "
         "calculators listed under C01 in tools/py2lean_targets.py are re-translated from the current Python source on each run into "
